@@ -16,6 +16,11 @@ using namespace Avoid;
 #ifndef IMPROVE
 #define IMPROVE 1
 #endif
+#ifdef REROUTE_TERMS
+#define M(x) x " [hyperedge registered by terminal list]"
+#else
+#define M(x) x
+#endif
 struct Node { int kind; void *obj; };      // kind 0: junction, 1: shape terminal
 static int find_node(std::vector<Node> &ns, int kind, void *obj) {
     for (size_t i = 0; i < ns.size(); i++) if (ns[i].kind == kind && ns[i].obj == obj) return (int)i;
@@ -29,52 +34,52 @@ static void check_tree(Router *router, ShapeRef **shapes, ShapeConnectionPin **p
         int ix[2];
         const ConnEnd *e[2] = {&ends.first, &ends.second};
         const PolyLine &r = c->displayRoute();
-        CHECK(r.size() >= 2, "C12 every connector of the hyperedge has a route");
+        CHECK(r.size() >= 2, M("C12 every connector of the hyperedge has a route"));
         for (int k = 0; k < 2; k++) {
             ConnEndType t = e[k]->type();
-            CHECK(t == ConnEndJunction || t == ConnEndShapePin, "C12 every connector still has both ends attached");
+            CHECK(t == ConnEndJunction || t == ConnEndShapePin, M("C12 every connector still has both ends attached"));
             if (t == ConnEndJunction) ix[k] = find_node(ns, 0, e[k]->junction());
             else ix[k] = find_node(ns, 1, e[k]->shape());
             if (r.size() >= 2) {
                 Point p = k == 0 ? r.ps[0] : r.ps[r.size() - 1];
                 if (t == ConnEndJunction) {
                     Point jp = e[k]->junction()->recommendedPosition();   // hyperedge improvement may recommend a new junction position; routes end there
-                    CHECK((p.x == jp.x) & (p.y == jp.y), "C12 a route end attached to a junction lies at the junction's position");
+                    CHECK((p.x == jp.x) & (p.y == jp.y), M("C12 a route end attached to a junction lies at the junction's position"));
                 } else {
                     bool onpin = false;
                     for (int s = 0; s < 3; s++) if (shapes[s] == e[k]->shape()) { Point pp = pins[s]->position(); onpin = (p.x == pp.x) & (p.y == pp.y); }
-                    CHECK(onpin, "C12 a route end attached to a shape pin lies at the pin's position");
+                    CHECK(onpin, M("C12 a route end attached to a shape pin lies at the pin's position"));
                 }
             }
         }
         es.push_back(std::make_pair(ix[0], ix[1]));
     }
     verif_out_int((int)ns.size()); verif_out_int((int)es.size());
-    CHECK(es.size() + 1 == ns.size(), "C12 connectors and junctions form a tree (|E| = |V| - 1)");
+    CHECK(es.size() + 1 == ns.size(), M("C12 connectors and junctions form a tree (|E| = |V| - 1)"));
     // connected
     std::vector<int> lab(ns.size()); for (size_t i = 0; i < ns.size(); i++) lab[i] = (int)i;
     for (size_t round = 0; round < ns.size(); round++) for (size_t j = 0; j < es.size(); j++) {
         int a = lab[es[j].first], b = lab[es[j].second]; int m = a < b ? a : b; lab[es[j].first] = m; lab[es[j].second] = m; }
     bool conn = true; for (size_t i = 0; i < ns.size(); i++) conn = conn && lab[i] == 0;
-    CHECK(conn, "C12 the hyperedge is connected");
+    CHECK(conn, M("C12 the hyperedge is connected"));
     // leaves are exactly the three shape terminals
     int nterm = 0;
     for (size_t i = 0; i < ns.size(); i++) {
         int deg = 0; for (size_t j = 0; j < es.size(); j++) deg += (es[j].first == (int)i) + (es[j].second == (int)i);
-        if (ns[i].kind == 1) { nterm++; CHECK(deg == 1, "C12 every terminal is a leaf"); }
-        else CHECK(deg >= 2, "C12 no junction is left dangling");
+        if (ns[i].kind == 1) { nterm++; CHECK(deg == 1, M("C12 every terminal is a leaf")); }
+        else CHECK(deg >= 2, M("C12 no junction is left dangling"));
     }
-    CHECK(nterm == 3, "C12 no terminal is dropped");
-    for (int s = 0; s < 3; s++) { bool found = false; for (size_t i = 0; i < ns.size(); i++) found = found || (ns[i].kind == 1 && ns[i].obj == shapes[s]); CHECK(found, "C12 no terminal is dropped"); }
+    CHECK(nterm == 3, M("C12 no terminal is dropped"));
+    for (int s = 0; s < 3; s++) { bool found = false; for (size_t i = 0; i < ns.size(); i++) found = found || (ns[i].kind == 1 && ns[i].obj == shapes[s]); CHECK(found, M("C12 no terminal is dropped")); }
     // new / deleted lists vs live objects
     HyperedgeNewAndDeletedObjectLists L = router->newAndDeletedObjectListsFromHyperedgeImprovement();
     for (ConnRefList::iterator it = L.newConnectorList.begin(); it != L.newConnectorList.end(); ++it) {
         bool live = false; for (ConnRefList::const_iterator c = router->connRefs.begin(); c != router->connRefs.end(); ++c) live = live || *c == *it;
-        CHECK(live, "C12 connectors reported as new are live objects of the router");
+        CHECK(live, M("C12 connectors reported as new are live objects of the router"));
     }
     for (ConnRefList::iterator it = L.deletedConnectorList.begin(); it != L.deletedConnectorList.end(); ++it) {
         bool live = false; for (ConnRefList::const_iterator c = router->connRefs.begin(); c != router->connRefs.end(); ++c) live = live || *c == *it;
-        CHECK(!live, "C12 connectors reported as deleted are no longer live");
+        CHECK(!live, M("C12 connectors reported as deleted are no longer live"));
     }
 }
 extern "C" void harness(void) {
@@ -93,7 +98,25 @@ extern "C" void harness(void) {
         pins[i] = new ShapeConnectionPin(shapes[i], 1, i == 0 ? ATTACH_POS_RIGHT : ATTACH_POS_LEFT, ATTACH_POS_CENTRE, true, 0.0, i == 0 ? ConnDirRight : ConnDirLeft);
         pins[i]->setExclusive(true);
     }
-    double jx = verif_coord(40, 100); double jy = verif_coord(20, 80);
+#ifdef REROUTE_TERMS
+    // register the hyperedge by its list of terminals only (no initial junction or connectors): the rerouter creates them
+    double shx = verif_coord(-10, 10);
+    { double mv = shx; router->moveShape(shapes[1], mv, 0); }
+    ConnEndList terms;
+    for (int i = 0; i < 3; i++) terms.push_back(ConnEnd(shapes[i], 1));
+    router->hyperedgeRerouter()->registerHyperedgeForRerouting(terms);
+    router->processTransaction();
+    check_tree(router, shapes, pins);
+    WITNESS_POINT();
+    delete router;
+    return;
+#endif
+    double jx = verif_coord(40, 100);
+#ifdef JYFIX
+    double jy = JYFIX;
+#else
+    double jy = verif_coord(20, 80);
+#endif
     JunctionRef *J = new JunctionRef(router, Point(jx, jy));
     J->setPositionFixed(false);
     for (int i = 0; i < 3; i++) new ConnRef(router, ConnEnd(J), ConnEnd(shapes[i], 1));
